@@ -36,6 +36,7 @@ namespace wmm
 {
 World* W = nullptr;
 std::unordered_set<uint64_t> g_visited;
+int g_no_record = 0;
 unsigned long long g_pruned = 0;
 } // namespace wmm
 using namespace wmm;
@@ -60,6 +61,26 @@ static void* g_deferred_free[1 << 14];
 static size_t g_deferred_free_n = 0;
 static size_t g_live_mapped = 0, g_max_mapped_len = 0, g_max_live_mapped = 0;
 static bool g_track = false;
+// what the harness bodies and the code under test allocate during one execution (on a coroutine, or in setup()): an
+// execution that is cut at a known state abandons its coroutines, and whatever their frames or the never-destroyed queue
+// still own is reclaimed here when the execution is over (without this a long exploration leaks ~7 KB per cut execution)
+static void* g_exec_allocs[1 << 15];
+static size_t g_exec_allocs_n = 0;
+static bool g_record_main = false;
+static inline void record_alloc(void* p)
+{
+  if (g_track && W && !g_no_record && ((W->in_exec && W->cur != 0) || g_record_main) && g_exec_allocs_n < (1u << 15)) g_exec_allocs[g_exec_allocs_n++] = p;
+}
+static inline void forget_alloc(void* p)
+{
+  for (size_t i = g_exec_allocs_n; i-- > 0;)
+    if (g_exec_allocs[i] == p)
+    {
+      g_exec_allocs[i] = nullptr;
+      if (i + 1 == g_exec_allocs_n) --g_exec_allocs_n;
+      return;
+    }
+}
 
 extern "C" void* mmap(void* addr, size_t len, int prot, int flags, int fd, off_t off)
 {
@@ -98,17 +119,20 @@ void* operator new(size_t n)
 {
   void* p = malloc(n ? n : 1);
   if (!p) throw std::bad_alloc{};
+  record_alloc(p);
   return p;
 }
 void* operator new(size_t n, std::align_val_t al)
 {
   void* p = nullptr;
   if (posix_memalign(&p, static_cast<size_t>(al) < sizeof(void*) ? sizeof(void*) : static_cast<size_t>(al), n ? n : 1) != 0) throw std::bad_alloc{};
+  record_alloc(p);
   return p;
 }
 static void vf_delete(void* p)
 {
   if (!p) return;
+  forget_alloc(p);
   if (g_track && W && W->in_exec && W->cur != 0 && g_deferred_free_n < (1u << 14))
     g_deferred_free[g_deferred_free_n++] = p; // freed on a coroutine (possibly by the code under test): quarantine until the execution ends
   else if (g_track && W && W->in_exec && W->cur != 0)
@@ -127,8 +151,14 @@ static void release_deferred()
   g_deferred_unmap_n = 0;
   for (size_t i = 0; i < g_deferred_free_n; ++i) free(g_deferred_free[i]);
   g_deferred_free_n = 0;
-  g_regions.clear();
+  // buffers the (cut) execution never unmapped, allocations its abandoned frames / never-destroyed queue still own
+  for (auto const& r : g_regions)
+    if (!r.dead) syscall(SYS_munmap, r.base, r.len);
+  std::vector<Region>().swap(g_regions); // its own storage may have grown on a coroutine: give it back before the sweep
   g_live_mapped = 0;
+  for (size_t i = 0; i < g_exec_allocs_n; ++i)
+    if (g_exec_allocs[i]) free(g_exec_allocs[i]);
+  g_exec_allocs_n = 0;
 }
 
 static Region* region_of(void const* p)
@@ -611,7 +641,19 @@ struct ExecResult
 };
 
 template <typename H>
+static ExecResult run_one_inner(std::vector<int> const& prefix);
+
+// the world and the harness object are destroyed (everything they own is freed) before what is left over is reclaimed
+template <typename H>
 static ExecResult run_one(std::vector<int> const& prefix)
+{
+  ExecResult res = run_one_inner<H>(prefix);
+  release_deferred();
+  return res;
+}
+
+template <typename H>
+static ExecResult run_one_inner(std::vector<int> const& prefix)
 {
   ExecResult res;
   World world;
@@ -622,7 +664,9 @@ static ExecResult run_one(std::vector<int> const& prefix)
   for (int t = 0; t < MAXT; ++t) W->th[t].view.clear();
   H h;
   W->cur = 0;
+  g_record_main = true;
   h.setup();
+  g_record_main = false;
   // thread start = happens-before edge from main
   for (int t = 1; t < MAXT; ++t)
   {
@@ -710,7 +754,6 @@ static ExecResult run_one(std::vector<int> const& prefix)
   res.max_mapped = g_max_mapped_len;
   res.max_live = g_max_live_mapped;
   g_track = false;
-  release_deferred();
   W = nullptr;
   return res;
 }
